@@ -59,7 +59,16 @@ impl<K: Eq, V> HashMap<K, V> {
     pub fn reserve(&mut self, _n: usize) {}
     pub fn len(&self) -> usize { self.n }
     pub fn is_empty(&self) -> bool { self.n == 0 }
-    fn push_new(&mut self, k: K, v: V) -> usize { assert!(self.n < MCAP, "model HashMap capacity"); let i = self.n; self.slots[i] = Some((k, v)); self.n += 1; i }
+    fn push_new(&mut self, k: K, v: V) -> usize {
+        assert!(self.n < MCAP, "model HashMap capacity");
+        // concrete slot indices under symbolic guards (see models/ndarray.rs push_row)
+        let at = self.n;
+        let mut kv = Some((k, v));
+        let mut i = 0;
+        while i < MCAP { if i == at { self.slots[i] = kv.take(); } i += 1; }
+        self.n += 1;
+        at
+    }
     fn find<Q: ?Sized + Eq>(&self, k: &Q) -> Option<usize> where K: Borrow<Q> {
         let mut i = 0;
         while i < MCAP {
@@ -133,7 +142,14 @@ impl<K: Eq> HashSet<K> {
     pub fn new() -> Self { Self::default() }
     pub fn len(&self) -> usize { self.n }
     pub fn is_empty(&self) -> bool { self.n == 0 }
-    fn push_new(&mut self, k: K) { assert!(self.n < SCAP, "model HashSet capacity"); self.slots[self.n] = Some(k); self.n += 1; }
+    fn push_new(&mut self, k: K) {
+        assert!(self.n < SCAP, "model HashSet capacity");
+        let at = self.n;
+        let mut kk = Some(k);
+        let mut i = 0;
+        while i < SCAP { if i == at { self.slots[i] = kk.take(); } i += 1; }
+        self.n += 1;
+    }
     fn find<Q: ?Sized + Eq>(&self, k: &Q) -> Option<usize> where K: Borrow<Q> {
         let mut i = 0;
         while i < SCAP {
